@@ -25,7 +25,7 @@ THEOREMS = (['Cv.C02_frame_string', 'Cv.C02_frame_all', 'Cv.C02_frame_bool', 'Cv
              'Cv.containerKeys_nodup', 'Cv.containerKeys_documented', 'Cv.containerKeys_complete', 'Cv.C02_container_delta'] +
             ['Conform.' + t for t in ROWTHMS] + ['Conform.lookup_kinds'])
 ASSUMPTIONS = [
-    '"adding the key changes nothing else in the command" is a theorem for the .image, .network, .pod, .kube, .volume and .container converter models (QM/ConvDelta.lean, QM/ConvArgs.lean, QM/Props/C02Delta.lean): the command is the concatenation of the blocks of segments, each a function of the assignment histories of its own keys; no key is read by two segments (decided over the tables regenerated from the source); hence two units that differ only in one key — added, re-assigned, reset, set in a drop-in — get commands that coincide argument for argument outside that key\'s block (C02_<type>_delta), and every documented key has a block (…Keys_complete). The arguments that the reference handlers collect while they thread the service through a fold are shown to be functions of the name table and the unit alone (handleNetworks_args, handleVolumes_args, mounts_args, handlePod_args, volumeOpts_args); the container's `--sdnotify … -d` depends on the unit's own [Service] Type=, which the two units are required to share. For the .build converter this clause is decided by the delta oracle on real conversions',
+    '"adding the key changes nothing else in the command" is a theorem for the .image, .network, .pod, .kube, .volume and .container converter models (QM/ConvDelta.lean, QM/ConvArgs.lean, QM/Props/C02Delta.lean): the command is the concatenation of the blocks of segments, each a function of the assignment histories of its own keys; no key is read by two segments (decided over the tables regenerated from the source); hence two units that differ only in one key — added, re-assigned, reset, set in a drop-in — get commands that coincide argument for argument outside that key\'s block (C02_<type>_delta), and every documented key has a block (…Keys_complete). The arguments that the reference handlers collect while they thread the service through a fold are shown to be functions of the name table and the unit alone (handleNetworks_args, handleVolumes_args, mounts_args, handlePod_args, volumeOpts_args); the --sdnotify / -d arguments of a container depend on the [Service] Type= of the unit, which the two units are required to share. For the .build converter this clause is decided by the delta oracle on real conversions',
     'Spec.rows_* / Spec.lookupKinds (lean/QM/Spec/Keys.lean, spec/keys.json) are the frozen documented key -> option tables and lookup kinds, seeded from the pinned tree',
     'the table-driven rows (string / all-strings / boolean keys, health keys, PublishPort, ContainersConfModule) are proved generically; the whole-command shape is proved for all seven converter models (C02_<type>_shape: the Exec line is the rendering of an explicit vector with the key tables as contiguous blocks in table order, PodmanArgs after the key-derived options, positional arguments last; results of handlers that depend on other units are existentially quantified); for the "special" keys (Volume, Mount, Network, User/Group, UserNS…, Notify, AutoUpdate, …) the exact option groups are checked on real conversions by the delta oracle',
     'Mount= values that need CSV quoting are outside the model (answered out-of-model by the model driver; still covered by the oracle)',
